@@ -226,13 +226,16 @@ func runC10(c *Ctx) {
 	}
 	if sm := w.Method("entity/dag", "SetMetadataOperation", "Apply"); sm != nil {
 		okSet := false
-		for _, cl := range Calls(sm) {
-			if strings.HasSuffix(cl.Name, ".setExtraMetadataImmutable") {
-				okSet = true
-			}
-			if strings.HasSuffix(cl.Name, ".SetMetadata") {
-				okSet = false
-				break
+	scanSet:
+		for _, f := range fnAndHelpers(bodyOf(sm), 1) {
+			for _, cl := range Calls(f) {
+				if strings.HasSuffix(cl.Name, ".setExtraMetadataImmutable") {
+					okSet = true
+				}
+				if strings.HasSuffix(cl.Name, ".SetMetadata") {
+					okSet = false
+					break scanSet
+				}
 			}
 		}
 		c.Check(okSet, "R10.3", "SetMetadataOperation.Apply:immutable-setter", w.FnPos(sm), "uses the immutable setter", "set-metadata does not go through setExtraMetadataImmutable")
